@@ -302,3 +302,49 @@ MUTANTS += [
     ("set_backend: forwarding to the owner drops the dry-run flag", H, "            return owner.set_backend(name, dryrun=dryrun)", "            return owner.set_backend(name)", "refute", "forwarded"),
     ("set_backend('any'): probing loop drops the dry-run flag", H, "                    return cls.set_backend(name, dryrun=dryrun)", "                    return cls.set_backend(name)", "refute", r"set_backend\[(any|default)"),
 ]
+
+
+# ---- utf8_repeat_string: the text handed to utf8_truncate is a whole number of copies (so a character cut at `size` can be completed) ----
+U = "passlib/utils/__init__.py"
+
+
+def _urs_setup(it, args):
+    seen = {}
+
+    def trunc(i, a, k):
+        seen["arg"], seen["index"] = i.resolve(a[0]), i.resolve(a[1])
+        return SStr(z3.String("truncated"), "bytes")
+
+    def rep(i, a, k):
+        r = SStr(z3.String(i.run.fresh("repeat_string")), "bytes")
+        i.run.assume(z3.Length(r.e) == i.to_z3(a[1], "int"))  # repeat_string cuts at exactly `size` bytes
+        return r
+
+    it.genv.vars["utf8_truncate"] = SStub(trunc, "utf8_truncate")
+    it.genv.vars["repeat_string"] = SStub(rep, "repeat_string")
+    it.run.ghost["seen"] = seen
+    return None
+
+
+CONTRACTS.append(Contract(
+    "utf8_repeat_string", f"{U}::utf8_repeat_string",
+    params={"source": Bytes(), "size": Int(lo=1)},
+    setup=_urs_setup,
+    requires=["len(source) > 0"],
+    ensures=[("utf8_truncate receives mult = 1 + (size - 1) // len(source) WHOLE copies of the source and cuts at `size` (lemma: that is at least `size` bytes), so a multi-byte character straddling the cut can be completed (bcrypt's $2$ emulation under a UTF-8-only backend)",
+              lambda it, env: z3.And(z3.Length(it.to_z3(it.run.ghost["seen"]["arg"])) == (1 + (it.to_z3(env.lookup("size"), "int") - 1) / z3.Length(it.to_z3(env.lookup("source")))) * z3.Length(it.to_z3(env.lookup("source"))),
+                                     it.to_z3(it.run.ghost["seen"]["index"], "int") == it.to_z3(env.lookup("size"), "int")))],
+    descr="every non-empty source, every size >= 1",
+))
+MUTANTS.append(("utf8_repeat_string: the repeated text is cut at `size` before utf8_truncate sees it", U, "    return utf8_truncate(source * mult, size)", "    return utf8_truncate(repeat_string(source, size), size)", "refute", "utf8_repeat_string"))
+
+
+def _whole_copies():
+    L, n = z3.Ints("len_source size")
+    m = 1 + (n - 1) / L
+    return [("mult copies are at least `size` bytes", [L >= 1, n >= 1], m * L >= n), ("mult copies end on a copy boundary", [L >= 1, n >= 1], (m * L) % L == 0)]
+
+
+from pyvc.contract import Lemma as _Lemma  # noqa: E402
+
+LEMMAS = list(globals().get("LEMMAS", [])) + [_Lemma("utf8-repeat-whole-copies", _whole_copies, "arithmetic of utf8_repeat_string's multiplier")]
